@@ -63,6 +63,11 @@ def units(rng, tier):
             p = {"lbn": lb2, "lbd": 2, "ubn": ub2, "ubd": 2}
             p.update(gen.with_format(rng, vals, rng.choice(["list", "dict_str", "dict_int"])))
             us.append(U("generate_tree", p, "inex/exhaustive"))
+    # degenerate shapes: no item at all, or only zero-valued items, with windows that contain 0, lie above it or below it
+    for vals in ([], [], [0], [0, 0]):
+        for lb2, ub2 in ((0, 0), (-2, 3), (1, 4), (2, 2), (-6, -1), (-3, -3), (1, 0)):
+            p = {"lbn": lb2, "lbd": 2, "ubn": ub2, "ubd": 2, "vals": list(vals), "fmt": "list"}
+            us.append(U("generate_tree", p, "inex/degenerate"))
     for _ in range(60 if tier == "quick" else 600):
         vals, fam = gen.values(rng, n=rng.randint(1, 9 if tier == "quick" else 11), family=rng.choice(["small", "medium", "zeros", "repeats"]))
         tot = sum(vals)
